@@ -246,6 +246,20 @@ fn grammar_packets(rng: &mut Rng) -> Vec<Vec<u8>> {
             }
         }
     }
+    for mode in ["OCTET", "Octet", "NetAscii", "MAIL", "mail", "binary"] {
+        v.push(wire::enc_request(wire::OP_RRQ, b"f", mode.as_bytes(), &[]));
+        v.push(wire::enc_request(wire::OP_WRQ, b"k:fw.bin", mode.as_bytes(), &[]));
+    }
+    // ERROR messages that are not valid UTF-8, terminated, with more bytes behind the terminator
+    for bad in [&b"caf\xe9"[..], b"\xff", b"a\xc3", b"\xf0\x9f\x98", b"ok"] {
+        for tail in [&b""[..], b"x", b"\0", b"\0y", b"y\0", b"\0\0z\0"] {
+            for code in [0u16, 3, 7] {
+                let mut p = wire::enc_error(code, bad);
+                p.extend_from_slice(tail);
+                v.push(p);
+            }
+        }
+    }
     // long option lists: k well-formed pairs (unknown, empty-named or recognised) and then a well-formed or malformed tail -
     // a parser that stops counting after some number of pairs must still validate and honour the rest
     for op in [wire::OP_RRQ, wire::OP_WRQ, wire::OP_OACK] {
@@ -460,7 +474,9 @@ fn c10(thorough: bool, miri: bool, seed: u64, threads: usize) -> Json {
 }
 
 fn gen_packet(r: &mut Rng) -> (Packet, RPacket) {
-    let strings: [&str; 9] = ["", "a", "octet", "netascii", "dir/sub/file.bin", "C:\\x\\y", "ünïcödé-文件", "with space", "%s%n"];
+    let strings: [&str; 16] = ["", "a", "octet", "netascii", "dir/sub/file.bin", "C:\\x\\y", "ünïcödé-文件", "with space", "%s%n",
+        // the RFC 1350 modes in other spellings: a decoder that canonicalises them does not return what was sent
+        "OCTET", "Octet", "NetAscii", "NETASCII", "mail", "MAIL", "k:fw.bin"];
     let long: String = "L".repeat(520);
     let mut pick_s = |r: &mut Rng| -> String {
         if r.chance(60) {
